@@ -5,11 +5,14 @@ Only `LiquerModel` (import-free models) is linked here.
 -/
 import LiquerModel.Handlers.Token
 import LiquerModel.Handlers.Paths
+import LiquerModel.Handlers.StoreLayers
+import LiquerModel.Handlers.Store
+import LiquerModel.Handlers.Parse
 
 open Liquer
 
 def handlers : List (String → List String → Option String) :=
-  [Handlers.token, Handlers.paths]
+  [Handlers.store, Handlers.token, Handlers.paths, Handlers.parseH, Handlers.storeLayers]
 
 def answer (line : String) : String :=
   match (line.trimAscii.toString.splitOn " ").filter (· ≠ "") with
